@@ -40,7 +40,7 @@ PROPS = {
     },
     "C10": {
         "level": "proof",
-        "units": ["cproof", "sproof", "range", "transcripts", "cor_cproof", "cor_sproof", "lemmas_schnorr", "lemmas_range_ledger", "lemmas_pedersen", "lemmas_ps"],
+        "units": ["cproof", "sproof", "range", "transcripts", "za_proofs_new", "za_pay_new", "lemmas_range_complete", "cor_cproof", "cor_sproof", "lemmas_schnorr", "lemmas_range_ledger", "lemmas_pedersen", "lemmas_ps"],
         "kani": ["commit_scalars_respected_n1", "commit_scalars_respected_n2", "commit_scalars_respected_n3", "range_digits_exact"],
         "assumptions": [
             PER_INST,
@@ -66,7 +66,7 @@ PROPS = {
     },
     "C13": {
         "level": "proof",
-        "units": ["range", "sproof", "lemmas_range_ledger"],
+        "units": ["range", "sproof", "lemmas_range_ledger", "lemmas_range_complete"],
         "kani": ["range_digits_exact"],
         "assumptions": [
             PER_INST,
@@ -118,7 +118,7 @@ PROPS = {
     },
     "C04": {
         "level": "proof",
-        "units": ["za_customer", "za_states", "za_lib", "lemmas_range_ledger", "lemmas_schnorr"],
+        "units": ["za_customer", "za_states", "za_lib", "za_proofs_new", "za_pay_new", "lemmas_range_complete", "lemmas_range_ledger", "lemmas_schnorr"],
         "kani": ["balance_try_new_exact", "amount_constructors_exact", "balance_apply_exact", "balance_try_add_exact"],
         "assumptions": [
             "blind-signing randomiser u != 0 and re-randomiser r != 0",
